@@ -76,5 +76,21 @@ int main(int argc, char **argv) {
             run("secretbox_xchacha_easy", op_sbx_easy, len, len + 16, off, msg); crypto_secretbox_xchacha20poly1305_easy(tmp, msg, len, N, K); run("secretbox_xchacha_open_easy", op_sbx_open, len + 16, len, off, tmp);
             if (oi % 3 == 0) { run("box_easy", op_box_easy, len, len + 16, off, msg); crypto_box_easy(tmp, msg, len, N, PK2, SK); run("box_open_easy", op_box_open, len + 16, len, off, tmp);
                 run("sign", op_sign, len, len + 64, off, msg); unsigned long long sl; crypto_sign(tmp, &sl, msg, len, SSK); run("sign_open", op_sign_open, len + 64, len, off, tmp); } } } }
+    /* long messages (internal chunking, bulk paths): exact aliasing for every stream / AEAD form, a few distances for the box family */
+    { static const size_t LB[] = { 16385, 65537, 1048593, 4096, 4097, 16384, 20000, 32768, 65536, 100000, 262163, 1048576 };
+      static const long OB[] = { 0, -1, 1, -16, 16, -64, 64 };
+      unsigned char *bmsg = malloc(1048700), *btmp = malloc(1048800); size_t nb = full ? 12 : 3;
+      for (size_t li = 0; li < nb; li++) { size_t len = LB[li]; unsigned char *msg = bmsg, *tmp = btmp; vrng_bytes(&R, msg, len);
+        run("stream_chacha20_xor", op_chacha20, len, len, 0, msg); run("stream_chacha20_ietf_xor", op_chacha20_ietf, len, len, 0, msg); run("stream_xchacha20_xor", op_xchacha20, len, len, 0, msg);
+        run("stream_salsa20_xor", op_salsa20, len, len, 0, msg); run("stream_xsalsa20_xor", op_xsalsa20, len, len, 0, msg); run("stream_salsa2012_xor", op_salsa2012, len, len, 0, msg);
+        AEBOTH(chacha, crypto_aead_chacha20poly1305, 16); AEBOTH(ietf, crypto_aead_chacha20poly1305_ietf, 16); AEBOTH(xchacha, crypto_aead_xchacha20poly1305_ietf, 16);
+        AEBOTH(aegis128l, crypto_aead_aegis128l, 32); AEBOTH(aegis256, crypto_aead_aegis256, 32); if (crypto_aead_aes256gcm_is_available()) AEBOTH(gcm, crypto_aead_aes256gcm, 16);
+        for (size_t oi = 0; oi < (full ? 7 : 3); oi++) { long off = OB[oi];
+            run("secretbox_easy", op_sb_easy, len, len + 16, off, msg); run("secretbox_detached", op_sb_det, len, len, off, msg);
+            crypto_secretbox_easy(tmp, msg, len, N, K); run("secretbox_open_easy", op_sb_open, len + 16, len, off, tmp);
+            run("secretbox_xchacha_easy", op_sbx_easy, len, len + 16, off, msg); crypto_secretbox_xchacha20poly1305_easy(tmp, msg, len, N, K); run("secretbox_xchacha_open_easy", op_sbx_open, len + 16, len, off, tmp);
+            if (oi == 0) { run("box_easy", op_box_easy, len, len + 16, off, msg); crypto_box_easy(tmp, msg, len, N, PK2, SK); run("box_open_easy", op_box_open, len + 16, len, off, tmp);
+                run("sign", op_sign, len, len + 64, off, msg); unsigned long long sl; crypto_sign(tmp, &sl, msg, len, SSK); run("sign_open", op_sign_open, len + 64, len, off, tmp); } } }
+      free(bmsg); free(btmp); }
     v_close(); return 0;
 }
